@@ -761,6 +761,9 @@ func (f *FuncCtx) callContract(fn *types.Func, c *FuncContract, pc *PkgContracts
 	if f.spec == nil {
 		f.specDepth++
 		for _, cl := range c.Ensures {
+			if strings.Contains(cl.Text, "ncalls(") {
+				continue // ghost call counters are local to the callee's own body
+			}
 			g := f.evalClause(cl, env, mk(results, pre))
 			f.assume(env, g)
 		}
